@@ -24,6 +24,14 @@ Theorem C17_resume_equiv : forall c ops n,
   exists r, resume n c s = Some r /\ observe r = observe (forward n s).
 Proof. exact resume_equiv. Qed.
 
+(* the same holds when the fresh wrapper is built from a seed that is already in the mode of the interrupted run and no
+   train()/eval() call is made before the forward pass, and when train()/eval() is called before the checkpoint is loaded:
+   the three restart protocols are the same function of (configuration, checkpoint) *)
+Theorem C17_resume_protocols_agree : forall c ops n,
+  let s := run (fresh c) ops in
+  resume_nomode n c s = resume n c s /\ resume_mode_first n c s = resume n c s.
+Proof. exact resume_protocols_agree. Qed.
+
 (* ... in particular after every history of optimizer steps, forward passes, mode changes, options re-set to the value
    they have, and MPS temperature changes *)
 Theorem C17_resume_equiv_neutral_history : forall c ops n,
@@ -98,6 +106,7 @@ Proof. vm_compute. repeat split. Qed.
 
 Print Assumptions C17_keys_exact.
 Print Assumptions C17_resume_equiv.
+Print Assumptions C17_resume_protocols_agree.
 Print Assumptions C17_resume_equiv_neutral_history.
 Print Assumptions C17_mps_temperature_persisted.
 Print Assumptions C17_pit_resume_out_summary_export.
